@@ -188,16 +188,57 @@ impl<'a> JsonTokenizer<'a> {
 
         while let Ok(c) = self.read() {
             if escape {
-                // Handle escape sequences
+                // Handle escape sequences (all of JSON's)
                 match c {
                     '\\' => result.push('\\'),
                     '"' => result.push('"'),
+                    '/' => result.push('/'),
                     'n' => result.push('\n'),
-                    // 't' => result.push('\t'),
-                    // 'r' => result.push('\r'),
-                    // Add other escape sequences as needed
-                    // _ => result.push(c), // Push the character as is if unknown escape
-                    _ => {}
+                    't' => result.push('\t'),
+                    'r' => result.push('\r'),
+                    'b' => result.push('\u{0008}'),
+                    'f' => result.push('\u{000C}'),
+                    'u' => {
+                        let first = self.read_hex4()?;
+                        let code = if (0xD800..0xDC00).contains(&first) {
+                            // high surrogate: a low surrogate escape must follow
+                            if self.read()? != '\\' || self.read()? != 'u' {
+                                self.skip_whitespaces = true;
+                                return Err(io::Error::new(
+                                    io::ErrorKind::InvalidData,
+                                    "Unpaired surrogate in \\u escape",
+                                ));
+                            }
+                            let second = self.read_hex4()?;
+                            if !(0xDC00..0xE000).contains(&second) {
+                                self.skip_whitespaces = true;
+                                return Err(io::Error::new(
+                                    io::ErrorKind::InvalidData,
+                                    "Unpaired surrogate in \\u escape",
+                                ));
+                            }
+                            0x10000 + ((first - 0xD800) << 10) + (second - 0xDC00)
+                        } else {
+                            first
+                        };
+                        match char::from_u32(code) {
+                            Some(ch) => result.push(ch),
+                            None => {
+                                self.skip_whitespaces = true;
+                                return Err(io::Error::new(
+                                    io::ErrorKind::InvalidData,
+                                    "Invalid \\u escape",
+                                ));
+                            }
+                        }
+                    }
+                    _ => {
+                        self.skip_whitespaces = true;
+                        return Err(io::Error::new(
+                            io::ErrorKind::InvalidData,
+                            format!("Invalid escape sequence '\\{}'", c),
+                        ));
+                    }
                 }
                 escape = false;
             } else if c == '\\' {
@@ -218,6 +259,18 @@ impl<'a> JsonTokenizer<'a> {
                 "Unterminated string",
             ))
         }
+    }
+
+    fn read_hex4(&mut self) -> io::Result<u32> {
+        let mut code = 0u32;
+        for _ in 0..4 {
+            let c = self.read()?;
+            let digit = c
+                .to_digit(16)
+                .ok_or_else(|| io::Error::new(io::ErrorKind::InvalidData, "Invalid \\u escape"))?;
+            code = code * 16 + digit;
+        }
+        Ok(code)
     }
 
     fn read_until_separator(&mut self) -> io::Result<String> {
